@@ -68,13 +68,13 @@ package ir
 //@ func (*Canonicalizer).NormalizeOperand
 //@   noframe
 //@   protocol-only C03 C02 C04
-//@   requires [C02.naming] c != nil && c.registerMap != nil
+//@   requires [C02.naming] c != nil
 //@   return-ensures [C03.callee] [C04.norm] typed(operand, "*ssa.Function") && !(iface(operand, "*ssa.Function") in c.registerMap) && (context == nil || parentI(context) == nil || rootF(operand) != rootF(parentI(context))) ==> contains(result, "<func_ref:" + stringF(operand) + ":")
 //@   return-ensures [C02.selfname] typed(operand, "*ssa.Function") && !(iface(operand, "*ssa.Function") in c.registerMap) && context != nil && parentI(context) != nil && operand == parentI(context) && parentF(operand) == nil ==> hasPrefix(result, "<func_ref:self:")
 
 // ---- C02: registers are named by position, never by source identifier; literals are abstracted per policy
 //@ func (*Canonicalizer).normalizeValue
-//@   requires [C02.naming] c != nil && c.registerMap != nil
+//@   requires [C02.naming] c != nil
 //@   modifies c
 //@   modifies c.registerMap
 //@   ensures [C02.naming] old(v in c.registerMap) ==> result == old(c.registerMap[v]) && c.regCounter == old(c.regCounter)
@@ -184,3 +184,43 @@ package ir
 //@   loop 6 ordered [C01.hoistorder]
 //@   loop 7 ordered [C01.hoistorder]
 //@   loop 8 ordered [C01.hoistorder]
+
+// ---- C02 / C01: the edges of a phi are ordered by what is printed for them (the canonical block label), never by
+// go/ssa's own block numbering: the sort key of every edge is the number read back from its label ("b<n>"), or -1
+// when the label has no such number - a function of the label alone. Not proved here: that the comparator is a strict
+// weak order (it is one only because every label in blockMap has the shape "b<n>", an invariant of
+// CanonicalizeFunction that the noframe call to NormalizeOperand in the loop does not let this function keep).
+//@ pred numericLabel(id string) = len(id) > 1 && hasPrefix(id, "b") && atoiOk(substr(id, 1, len(id)))
+//@ pred labelKey(id string, k int) = (numericLabel(id) ==> k == atoiOf(substr(id, 1, len(id)))) && (!numericLabel(id) ==> k == 0 - 1)
+//@ func (*Canonicalizer).writePhi
+//@   noframe
+//@   protocol-only C02 C01
+//@   loop 1 invariant [C02.phiorder] [C01.phiorder] forall k in 0..len(edges) :: labelKey(edges[k].predID, edges[k].predIndex)
+
+// ---- C17: the renamer's own nesting is bounded. It refuses at MaxRenamerDepth, and every expansion it hands back to
+// a loop summary (the only way it re-enters itself) runs with the depth counter one higher than on entry.
+//@ func (*Canonicalizer).renamerFunc$1
+//@   noframe
+//@   protocol-only C17
+//@   ensures [C17.depth] old(*depth) >= MaxRenamerDepth ==> result == "<depth-limit>"
+//@   call StringWithRenamer assert [C17.depth] *depth == old(*depth) + 1 && *depth <= MaxRenamerDepth
+
+// ---- C04: the line rendered for a slice expression keeps its bounds apart. out (ghost) is the text written to the
+// scratch builder, res[k] the k-th operand rendering obtained from NormalizeOperand; when the scratch text is handed
+// over, a slice expression reads "Slice x[, Low:l][, High:h][, Max:m]" - s[i:] and s[:i] never render alike.
+//@ func (*Canonicalizer).processInstruction
+//@   noframe
+//@   protocol-only C04
+//@   ghost out string
+//@   ghost nres int
+//@   ghost res map[int]string
+//@   init out = ""
+//@   init nres = 0
+//@   call (*strings.Builder).Reset update out = ite(a0 == fieldaddr(c, "scratch"), "", out)
+//@   call (*strings.Builder).WriteString update out = ite(a0 == fieldaddr(c, "scratch"), out + a1, out)
+//@   call (*Canonicalizer).NormalizeOperand update res = store(res, nres, result)
+//@   call (*Canonicalizer).NormalizeOperand update nres = nres + 1
+//@   let sl = dyn(instr, "*ssa.Slice")
+//@   call (*strings.Builder).String assert [C04.render] a0 == fieldaddr(c, "scratch")
+//@   call (*strings.Builder).String assert [C04.render] a0 == fieldaddr(c, "scratch") && hasType(instr, "*ssa.Slice") ==> out == "Slice " + res[0] + ite(sl.Low != nil, ", Low:" + res[1], "") + ite(sl.High != nil, ", High:" + res[ite(sl.Low != nil, 2, 1)], "") + ite(sl.Max != nil, ", Max:" + res[1 + ite(sl.Low != nil, 1, 0) + ite(sl.High != nil, 1, 0)], "")
+
